@@ -1646,7 +1646,7 @@ func sitesTestBit(p *Prog, fn *ssa.Function, eventsF *types.Var, flag int64) boo
 	for _, site := range sites {
 		ok := false
 		for _, l := range guardsOf(site.(ssa.Instruction).Block()) {
-			if x, set, isBT := bitTest(l, eventsF); isBT && set && isConstInt(x, flag) {
+			if x, set, isBT := bitTest(l, eventsF); isBT && set && isConstInt(x, flag) && !staleMaskAt(l, site.(ssa.Instruction), eventsF) {
 				ok = true
 			}
 		}
@@ -1655,6 +1655,43 @@ func sitesTestBit(p *Prog, fn *ssa.Function, eventsF *types.Var, flag int64) boo
 		}
 	}
 	return true
+}
+
+// staleMaskAt: the Slot.Events value tested by literal l was loaded before code that may run a handler (a call through
+// a function value, or of a function of the module that makes one) which can execute before the call site: that
+// handler (the user's callback) may cancel or close the object, so the mask no longer says what is armed.
+func staleMaskAt(l Lit, site ssa.Instruction, eventsF *types.Var) bool {
+	fn := site.Parent()
+	stale := false
+	for _, ld := range eventsLoadsIn(l.Cond, eventsF, 0) {
+		if ld.Parent() != fn {
+			continue
+		}
+		eachInstr(fn, func(x ssa.Instruction) {
+			cc, ok := x.(ssa.CallInstruction)
+			if !ok || x == site || stale {
+				return
+			}
+			if _, isDefer := x.(*ssa.Defer); isDefer {
+				return
+			}
+			runs := isDynamicFuncCall(cc)
+			if h := cc.Common().StaticCallee(); !runs && h != nil && h.Blocks != nil && h.Pkg != nil && strings.HasPrefix(h.Pkg.Pkg.Path(), modPath) {
+				runs = containsDeep(h, func(y ssa.Instruction) bool {
+					yc, ok := y.(ssa.CallInstruction)
+					return ok && isDynamicFuncCall(yc)
+				}, 2)
+			}
+			if !runs {
+				return
+			}
+			after := (ld.Block() == x.Block() && instrIndex(ld) < instrIndex(x)) || (ld.Block() != x.Block() && ld.Block().Dominates(x.Block()))
+			if after && reachesFrom(x, site) {
+				stale = true
+			}
+		})
+	}
+	return stale
 }
 
 // checkParamDispatch: R3 for a dispatching helper whose direction (handler index, interest flag, removal operation) is
